@@ -14,13 +14,13 @@ fn enc_ents(tag: i64, l: &[Entity]) -> Out {
     o
 }
 
-struct Exec {
-    world: World,
-    hs: Vec<Entity>,
+pub struct Exec {
+    pub world: World,
+    pub hs: Vec<Entity>,
 }
 
 impl Exec {
-    fn new() -> Self {
+    pub fn new() -> Self {
         Exec { world: World::new(), hs: Vec::new() }
     }
 
@@ -29,7 +29,7 @@ impl Exec {
         self.hs.get(k as usize).copied()
     }
 
-    fn step(&mut self, code: i64, p: &[i64]) -> Out {
+    pub fn step(&mut self, code: i64, p: &[i64]) -> Out {
         match (code, p.len()) {
             (1, _) => {
                 let e = self.world.create_entity().build();
